@@ -134,7 +134,7 @@ def comb(n, start=0):
     return t
 
 
-ADV_KINDS = ["always_equal", "never_equal", "falsy", "zero_len", "unhashable", "container", "ordering"]
+ADV_KINDS = ["always_equal", "never_equal", "falsy", "zero_len", "unhashable", "container", "ordering", "tuple_based"]
 
 
 def sprinkle_adv(cases, every=6):
